@@ -25,15 +25,21 @@ func tvRun(ctx *RunCtx, pkgs []*tv.Package, mode string) error {
 		bounds.MaxSlice, bounds.MaxStr, bounds.TimeoutMs = 3, 3, 60000
 	}
 	nfunc, ncompared, nrejected, nskipped := 0, 0, 0, 0
-	for _, p := range pkgs {
+	for qi := 0; qi < len(pkgs); qi++ {
+		p := pkgs[qi]
 		if err := d.WritePackage(p); err != nil {
 			return err
 		}
 		tr := d.Translate(p)
 		ctx.Programs += len(p.Cases)
+		if tr.Crashed && len(p.Cases) > 1 {
+			// isolate the declaration that crashes goose: one package per case
+			pkgs = append(pkgs, p.Singletons()...)
+			ctx.Programs -= len(p.Cases)
+			continue
+		}
 		if tr.Crashed {
-			// find the culprit by bisecting is expensive; report the package
-			ctx.addTVViolation(p, nil, "goose/crash", fmt.Sprintf("goose exited with status %d (not a structured error): %s", tr.Exit, firstLines(tr.Stderr, 6)), tr, nil)
+			ctx.addTVViolation(p, &p.Cases[0], "goose/crash", fmt.Sprintf("goose exited with status %d (not a structured error): %s", tr.Exit, firstLines(tr.Stderr, 6)), tr, nil)
 			continue
 		}
 		if tr.V == "" {
